@@ -338,10 +338,11 @@ func (r *transport) handleCacheHit(
 		// A request max-age that the response exceeds asks for validation (§5.2.1.1).
 		reqMaxAge, hasReqMaxAge := ccReq.MaxAge()
 		if staleFor >= 0 && staleFor < swr && (!hasReqMaxAge || (reqMaxAge > 0 && age <= reqMaxAge)) {
+			var noCacheFields iter.Seq[string]
 			if isRespNoCacheQualified {
-				stripFields(stored.Data.Header, respNoCacheFieldsSeq)
+				noCacheFields = respNoCacheFieldsSeq
 			}
-			return r.handleStaleWhileRevalidate(req, stored, urlKey, freshness, ccReq, refs, refIndex)
+			return r.handleStaleWhileRevalidate(req, stored, urlKey, freshness, ccReq, refs, refIndex, noCacheFields)
 		}
 	}
 
@@ -400,9 +401,15 @@ func (r *transport) handleStaleWhileRevalidate(
 	ccReq internal.CCRequestDirectives,
 	refs internal.ResponseRefs,
 	refIndex int,
+	noCacheFields iter.Seq[string],
 ) (*http.Response, error) {
 	req2 := req.Clone(req.Context())
 	req2 = withConditionalHeaders(req2, stored.Data.Header)
+	// The fields named by a qualified no-cache are withheld from the response that is
+	// served, not from the validation request: a validator may be among them.
+	if noCacheFields != nil {
+		stripFields(stored.Data.Header, noCacheFields)
+	}
 	// Background revalidation is "best effort"; it is not guaranteed to complete
 	// if the program exits before the goroutine finishes. This design choice was
 	// made to keep the API simple and avoid requiring explicit shutdown coordination.
